@@ -65,6 +65,29 @@ pub(crate) mod verif_u {
         }
     }
 
+    // ---- setters/observers for the harnesses of other modules (fields are private to this module)
+    pub(crate) fn set_peer_addr<T: Config>(ep: &mut UdpProtocol<T>, a: T::Address) {
+        ep.peer_addr = a;
+    }
+    pub(crate) fn set_peer_status<T: Config>(ep: &mut UdpProtocol<T>, h: usize, cs: ConnectionStatus) {
+        ep.peer_connect_status[h] = cs;
+    }
+    pub(crate) fn set_running<T: Config>(ep: &mut UdpProtocol<T>, running: bool) {
+        ep.state = if running { ProtocolState::Running } else { ProtocolState::Synchronizing };
+    }
+    pub(crate) fn pending_len<T: Config>(ep: &UdpProtocol<T>) -> usize {
+        ep.pending_output.len()
+    }
+    pub(crate) fn pending_frame<T: Config>(ep: &UdpProtocol<T>, i: usize) -> (Frame, u8) {
+        (ep.pending_output[i].frame, ep.pending_output[i].bytes[0])
+    }
+    pub(crate) fn sendq_len<T: Config>(ep: &UdpProtocol<T>) -> usize {
+        ep.send_queue.len()
+    }
+    pub(crate) fn is_disconnected_state<T: Config>(ep: &UdpProtocol<T>) -> bool {
+        ep.state == ProtocolState::Disconnected
+    }
+
     fn msg(magic: u16, body: MessageBody) -> Message {
         Message { header: MessageHeader { magic }, body }
     }
